@@ -416,7 +416,7 @@ class Gen(object):
 
     def gen_component(self, name):
         r = self.rng
-        n = r.choice([0, 1, 1, 2, 2, 3])
+        n = r.choice([0, 1, 1, 2, 2, 3, 2])
         names = r.sample(PARAM_NAMES, n)
         params = []
         args = [L(r.choice(WORDS))]
@@ -583,7 +583,7 @@ def strip(ns_templates, entry, eargs, sp):
 
 def gen_namespace(rng):
     for _try in range(50):
-        depth = rng.choice([1, 2, 2, 3, 3, 4])
+        depth = rng.choice([1, 2, 2, 3, 3, 4, 4])
         g = Gen(rng, depth)
         for i in range(rng.choice([1, 2, 2, 3])):
             g.gen_component(['ca', 'cb', 'cc'][i])
@@ -629,14 +629,17 @@ def reachable_wfs(ns):
     return [t[n] for n in seen]
 
 
-def mutate(ns, rng):
+KINDS = ['unknown_template', 'cycle', 'missing_arg', 'unknown_arg', 'unknown_param', 'non_sibling',
+         'not_executed', 'no_step', 'dup_template', 'unknown_entry', 'ref_to_workflow',
+         'dangling_in_workflow', 'digit_name', 'dup_execute', 'entry_unknown_arg', 'entry_ref']
+
+
+def mutate(ns, rng, kind=None):
     """single-fault mutant of a valid namespace -> (namespace, fault class) or None"""
     ns = _norm(ns)
     rw = reachable_wfs(ns)
     w = rng.choice(rw)
-    kind = rng.choice(['unknown_template', 'cycle', 'missing_arg', 'unknown_arg', 'unknown_param', 'non_sibling',
-                       'not_executed', 'no_step', 'dup_template', 'unknown_entry', 'ref_to_workflow',
-                       'dangling_in_workflow', 'digit_name', 'dup_execute', 'entry_unknown_arg', 'entry_ref'])
+    kind = kind or rng.choice(KINDS)
     tmap = {t['name']: t for t in ns['wfs'] + ns['comps']}
     ei = rng.randrange(len(w['exec']))
     tg, args = w['exec'][ei]
@@ -823,7 +826,7 @@ def run(ctx):
     ctx.rule = ('valid namespace with >= 2 component instances and >= 1 producer->consumer edge, or an invalid '
                 '(single-fault) namespace; distinct by rendered document')
     rng = ctx.rng
-    n_valid, n_mut = (260, 160) if ctx.tier == 'quick' else (2500, 1500)
+    n_valid, n_mut = (700, 400) if ctx.tier == 'quick' else (5000, 3000)
     cases = [('corpus:' + k, _norm(ns)) for k, ns in CORPUS]
     valid = []
     for _ in range(n_valid):
@@ -832,9 +835,10 @@ def run(ctx):
         cases.append(('generated', ns))
     made = 0
     tries = 0
-    while made < n_mut and tries < n_mut * 5:
+    while made < n_mut and tries < n_mut * 40:
+        kind = KINDS[made % len(KINDS)]
         tries += 1
-        m = mutate(rng.choice(valid), rng)
+        m = mutate(rng.choice(valid), rng, kind)
         if m is None:
             continue
         cases.append((m[1] + ':mutant', m[0]))
